@@ -141,6 +141,16 @@ Definition o13_step (prev : mgr) (s : ostep) : bool :=
               end
           | _ => true
           end
+      | XOk (RHave_IntReq j _), None =>
+          (* a piece taken straight from a Have announcement is a pick too: the announced piece, lacked, and not being
+             fetched from another peer unless fewer than ten remain *)
+          match c with
+          | CHave _ i => (j =? i) && match nthN (m_status prev) i with
+                                     | Some st => is_missing st || (negb (is_have st) && end_game prev)
+                                     | None => false
+                                     end
+          | _ => true
+          end
       | _, _ => true
       end
   | OChoose a picks =>
